@@ -286,7 +286,11 @@ def cases(tier: str, seed: int) -> List[Case]:
             for a1 in args2:
                 for a2 in [None] + args2[:3]:
                     idx += 1
-                    if (idx + seed) % (25 if quick else 6) != 0:
+                    # one union argument next to a plain one: an overload may decompose the first and reject the second
+                    # (sampled densely and by label, so that the sample does not move when other families change)
+                    one_union = a2 is not None and (a1[0] == "u") != (a2[0] == "u") and "any" not in (a1, a2)
+                    key = zlib.crc32(f"{s1}{s2}{a1}{a2}".encode()) + seed
+                    if key % ((5 if one_union else 25) if quick else (2 if one_union else 6)) != 0:
                         continue
                     if a2 is not None and a1[0] == "u" and a2[0] == "u":
                         continue
@@ -303,7 +307,9 @@ def cases(tier: str, seed: int) -> List[Case]:
             for a1 in args2:
                 for a2 in args2[:3]:
                     idx += 1
-                    if (idx + seed) % (20 if quick else 5) != 0:
+                    one_union = (a1[0] == "u") != (a2[0] == "u") and "any" not in (a1, a2)
+                    key = zlib.crc32(f"{s1}{s2}{a1}{a2}".encode()) + seed
+                    if key % ((3 if one_union else 20) if quick else (1 if one_union else 5)) != 0:
                         continue
                     if a1[0] == "u" and a2[0] == "u":
                         continue
